@@ -31,6 +31,10 @@ type desc struct {
 	HjIn     int         `json:"hjin"`            // bytes read inside the handler (-1: to EOF)
 	Late     bool        `json:"late,omitempty"`
 	SetClose bool        `json:"setclose,omitempty"` // the handler also calls SetConnectionClose
+	Body     hlib.B      `json:"body,omitempty"`     // the hijacking request is a POST with this body
+	Expect   bool        `json:"expect,omitempty"`   // ... announced with Expect: 100-continue
+	Timeout  bool        `json:"timeout,omitempty"`  // the handler also calls TimeoutError (the hijack is dropped)
+	Toggle   bool        `json:"toggle,omitempty"`   // HijackSetNoResponse(true) then (false); Hijack called twice
 }
 
 const marker = "\x00HJ\x00"
@@ -50,6 +54,12 @@ func (d desc) scenario() (servlib.Scenario, int, int) {
 	if d.SetClose {
 		ops = append(ops, servlib.Op{K: "close"})
 	}
+	if d.Timeout {
+		ops = append(ops, servlib.Op{K: "timeout"})
+	}
+	if d.Toggle {
+		ops = append(ops, servlib.Op{K: "noresp", N: 1}, servlib.Op{K: "hijack"}, servlib.Op{K: "noresp", N: 0})
+	}
 	sc.Ops[n-1] = ops
 	reqlen := 0
 	var pending []byte
@@ -60,6 +70,11 @@ func (d desc) scenario() (servlib.Scenario, int, int) {
 		}
 		if i == n && d.ConnOpt != "" {
 			q.Conn = []string{d.ConnOpt}
+		}
+		if i == n && len(d.Body) > 0 {
+			q.Method = "POST"
+			q.Body = d.Body
+			q.Expect = d.Expect
 		}
 		b := q.Bytes(i)
 		reqlen += len(b)
@@ -72,7 +87,7 @@ func (d desc) scenario() (servlib.Scenario, int, int) {
 				sc.Steps = append(sc.Steps, servlib.Step{Chunk: pending, Wait: !d.NoResp})
 			}
 		} else {
-			sc.Steps = append(sc.Steps, servlib.Step{Chunk: b, Wait: !(i == n && d.NoResp)})
+			sc.Steps = append(sc.Steps, servlib.Step{Chunk: b, Wait: !(i == n && d.NoResp && !d.Toggle)})
 		}
 	}
 	for _, l := range d.Later {
@@ -112,7 +127,15 @@ func corpus() []desc {
 						desc{Cfg: cfg, NoResp: nr, HjIn: -1, ConnOpt: "close", Same: randBytes(r, 10)},
 						desc{Cfg: cfg, NoResp: nr, HjIn: -1, SetClose: true, Same: randBytes(r, 10)},
 						desc{Cfg: cfg, NoResp: nr, HjIn: -1, V10: true, NPre: 1, Same: randBytes(r, 10)},
+						desc{Cfg: cfg, NoResp: nr, HjIn: -1, Body: []byte("0123456789"), Same: randBytes(r, 20), Later: []hlib.B{randBytes(r, 10)}},
+						desc{Cfg: cfg, NoResp: nr, HjIn: -1, Body: []byte("0123456789"), Expect: true, Same: randBytes(r, 20)},
+						desc{Cfg: cfg, NoResp: nr, HjIn: -1, Timeout: true, Same: randBytes(r, 10)},
+						desc{Cfg: cfg, NoResp: nr, HjIn: -1, Toggle: true, Same: randBytes(r, 10)},
 					)
+					sb := cfg
+					sb.StreamBody = true
+					c = append(c, desc{Cfg: sb, NoResp: nr, HjIn: -1, Body: []byte("0123456789"), Same: randBytes(r, 20), Later: []hlib.B{randBytes(r, 10)}},
+						desc{Cfg: sb, NoResp: nr, HjIn: -1, Same: randBytes(r, 20)})
 				}
 			}
 		}
@@ -142,6 +165,14 @@ func gen(r *rand.Rand, i int) desc {
 		d.V10 = true
 	case 5:
 		d.Cfg.MaxReqs = 1 + r.Intn(3)
+	case 6:
+		d.Body = randBytes(r, 1+r.Intn(40))
+		d.Expect = r.Intn(2) == 0
+		d.Cfg.StreamBody = r.Intn(3) == 0
+	case 7:
+		d.Toggle = true
+	case 8:
+		d.Timeout = r.Intn(2) == 0
 	}
 	size := func() int {
 		switch r.Intn(6) {
